@@ -1,5 +1,5 @@
 """C03 - right result to the right future, at-most-once execution, map == map."""
-from .base import Prop, gen_knobs, gen_model, submit_op, hang_violations
+from .base import focus_hot, Prop, gen_knobs, gen_model, submit_op, hang_violations
 from . import execfam as X
 
 
@@ -48,7 +48,7 @@ def gen(rng, tier):
     if nthreads > 1:
         main.append({"op": "join_users"})
     main.append({"op": "shutdown", "ex": "A", "wait": True})
-    return dict(family="routing", knobs=gen_knobs(rng, tier), model=gen_model(rng), threads=threads, faults=[])
+    return dict(family="routing", knobs=focus_hot(rng, gen_knobs(rng, tier), threads), model=gen_model(rng), threads=threads, faults=[])
 
 
 class C03(Prop):
